@@ -179,6 +179,11 @@ def network_part(ck, tier, seed):
         # blunders (known finding of C14: angular terms are tested on the homogenised right-hand side, which mixes
         # the observations of a correlated cluster); the sub-matrix rule is checked for whatever was excluded.
         removed = [e for e in g.trace if e.get("kind") == "rm_obs_abs_term"]
+        if any(e.get("kind") == "rm_point" for e in g.trace):
+            # excluding the planted blunders left part of the network undetermined (e.g. a levelling line cut twice)
+            # and gama removed points, hence further observations: which rows remain is C14's subject, not judged here
+            ck.inconc("planted blunders cut the network: points removed")
+            continue
         rows = []
         for ci, cl in enumerate(net.clusters):
             if cl.kind in ("obs", "hdiff"):
